@@ -411,3 +411,13 @@ func CutsBytesAtRunePositions(text string) []string {
 	}
 	return out
 }
+
+// CutsBetweenUnorderedMarks violates R2.21.
+func CutsBetweenUnorderedMarks(line string) string {
+	a := strings.Index(line, "[")
+	b := strings.Index(line, "]")
+	if a == -1 || b == -1 {
+		return ""
+	}
+	return line[a+1 : b]
+}
